@@ -1,4 +1,6 @@
 
+val xorb : bool -> bool -> bool
+
 val negb : bool -> bool
 
 type nat =
@@ -22,6 +24,8 @@ val compOpp : comparison -> comparison
 
 val add : nat -> nat -> nat
 
+val mul : nat -> nat -> nat
+
 val eqb : bool -> bool -> bool
 
 module Nat :
@@ -33,9 +37,13 @@ module Nat :
   val ltb : nat -> nat -> bool
  end
 
+val rev : 'a1 list -> 'a1 list
+
 val map : ('a1 -> 'a2) -> 'a1 list -> 'a2 list
 
 val flat_map : ('a1 -> 'a2 list) -> 'a1 list -> 'a2 list
+
+val fold_left : ('a1 -> 'a2 -> 'a1) -> 'a2 list -> 'a1 -> 'a1
 
 val existsb : ('a1 -> bool) -> 'a1 list -> bool
 
@@ -63,6 +71,14 @@ type z =
 
 module Pos :
  sig
+  type mask =
+  | IsNul
+  | IsPos of positive
+  | IsNeg
+ end
+
+module Coq_Pos :
+ sig
   val succ : positive -> positive
 
   val add : positive -> positive -> positive
@@ -71,9 +87,26 @@ module Pos :
 
   val pred_double : positive -> positive
 
+  type mask = Pos.mask =
+  | IsNul
+  | IsPos of positive
+  | IsNeg
+
+  val succ_double_mask : mask -> mask
+
+  val double_mask : mask -> mask
+
+  val double_pred_mask : positive -> mask
+
+  val sub_mask : positive -> positive -> mask
+
+  val sub_mask_carry : positive -> positive -> mask
+
   val mul : positive -> positive -> positive
 
   val iter : ('a1 -> 'a1) -> 'a1 -> positive -> 'a1
+
+  val size : positive -> positive
 
   val compare_cont : comparison -> positive -> positive -> comparison
 
@@ -90,11 +123,21 @@ module Pos :
 
 module N :
  sig
+  val succ_double : n -> n
+
+  val double : n -> n
+
+  val sub : n -> n -> n
+
   val compare : n -> n -> comparison
 
   val eqb : n -> n -> bool
 
+  val leb : n -> n -> bool
+
   val ltb : n -> n -> bool
+
+  val pos_div_eucl : positive -> n -> n * n
  end
 
 module Z :
@@ -146,6 +189,18 @@ module Z :
   val div_eucl : z -> z -> z * z
 
   val div : z -> z -> z
+
+  val modulo : z -> z -> z
+
+  val quotrem : z -> z -> z * z
+
+  val quot : z -> z -> z
+
+  val even : z -> bool
+
+  val odd : z -> bool
+
+  val log2 : z -> z
  end
 
 type str = n list
@@ -482,6 +537,184 @@ val s_segs :
 val sem :
   registry -> (bool -> str -> str -> bool) -> query -> json -> node list
 
+type ttype =
+| T_EOF
+| T_ERROR
+| T_INIT
+| T_COLON
+| T_COMMA
+| T_DOUBLE_DOT
+| T_FILTER
+| T_INDEX
+| T_LBRACKET
+| T_PROPERTY
+| T_RBRACKET
+| T_ROOT
+| T_WILD
+| T_AND
+| T_CURRENT
+| T_DQ_STRING
+| T_EQ
+| T_FALSE
+| T_FLOAT
+| T_FUNCTION
+| T_GE
+| T_GT
+| T_INT
+| T_LE
+| T_LPAREN
+| T_LT
+| T_NE
+| T_NOT
+| T_NULL
+| T_OR
+| T_RPAREN
+| T_SQ_STRING
+| T_TRUE
+
+val ttype_code : ttype -> z
+
+val ttype_eqb : ttype -> ttype -> bool
+
+type token = { ty : ttype; tval : str; tidx : z }
+
+type re =
+| REps
+| RClass of bool * (n * n) list
+| RSeq of re * re
+| RAlt of re * re
+| RStar of re
+
+val rPlus : re -> re
+
+val rOpt : re -> re
+
+val rChar : n -> re
+
+val in_ranges : n -> (n * n) list -> bool
+
+val rm : nat -> re -> n list -> z -> (n list -> z -> z option) -> z option
+
+val re_match : re -> n list -> z option
+
+val cls_digit : (n * n) list
+
+val re_digits : re
+
+val re_minus_opt : re
+
+val re_eE : re
+
+val rE_WHITESPACE : re
+
+val cls_name_first : (n * n) list
+
+val cls_name_char : (n * n) list
+
+val rE_PROPERTY : re
+
+val rE_INDEX : re
+
+val rE_INT : re
+
+val rE_FLOAT : re
+
+val rE_FUNCTION_NAME : re
+
+val eSCAPES : n list
+
+type lexer = { l_rest : n list; l_cur : n list; l_start : z; l_pos : 
+               z; l_fdepth : z; l_ffd : z list; l_fcs : z list;
+               l_bs : (n * z) list; l_toks : token list }
+
+type lstate =
+| SRoot
+| SSegment
+| SDescendant
+| SShorthand
+| SBracket
+| SFilter0
+| SString of n * bool
+| SStringBody of n * bool
+
+type lexout =
+| LNext of lstate * lexer
+| LStop of lexer
+| LRaise of jperr * z
+| LCrash of pyexn
+
+val upd_text : lexer -> n list -> n list -> z -> z -> lexer
+
+val l_next : lexer -> n option * lexer
+
+val l_peek : lexer -> n option
+
+val l_ignore : lexer -> lexer
+
+val l_backup : lexer -> lexer option
+
+val add_tok : lexer -> token -> lexer
+
+val l_emit : ttype -> lexer -> lexer
+
+val l_error : lexer -> lexout
+
+val skipn_push : nat -> n list -> n list -> n list * n list
+
+val l_advance : lexer -> z -> lexer
+
+val l_accept_match : re -> lexer -> bool * lexer
+
+val is_prefix : n list -> n list -> bool
+
+val l_accept : n list -> lexer -> bool * lexer
+
+val l_ignore_ws : lexer -> (bool * lexer) option
+
+val set_stacks : lexer -> z -> z list -> z list -> (n * z) list -> lexer
+
+val push_bracket : n -> z -> lexer -> lexer
+
+val ceq : n option -> n -> bool
+
+val s_true : n list
+
+val s_false : n list
+
+val s_null : n list
+
+val emit2 : lexer -> n -> ttype -> ttype -> lexer
+
+val lex_step : lstate -> lexer -> lexout
+
+val lex_run : nat -> lstate -> lexer -> lexer result
+
+val lexer_init : str -> lexer
+
+val lex_fuel : str -> nat
+
+val m_tokenize : str -> token list result
+
+val is_digit : n -> bool
+
+val take_digits : n list -> n list * n list
+
+val digits_val : n list -> z
+
+type decimal = { d_neg : bool; d_mant : z; d_exp10 : z; d_ndig : z }
+
+val parse_decimal : str -> decimal option
+
+val strip_twos : nat -> z -> z -> z * z
+
+val round_ratio : z -> z -> (z * z) option
+
+val float_of_decimal : decimal -> num
+
+val py_float : str -> num option
+
+val py_int_of_float : num -> z option
+
 val iota_json : z -> json list
 
 val enc_sel : (z * json) list -> z list
@@ -495,5 +728,11 @@ val op_sem : z list -> z list
 val dec_comparand : comparand dec
 
 val op_cmp : z list -> z list
+
+val enc_token : token -> z list
+
+val op_tokenize : z list -> z list
+
+val op_float : z list -> z list
 
 val dispatch : z list -> z list
